@@ -134,14 +134,15 @@ class Check:
                 part = jobs[a:a + chunk]
                 res = pool.map(fn, part, chunksize=max(1, len(part) // (procs * 4)))
                 traces, metas = [], []
+                fname = "%s.%s" % (fn.__module__, fn.__name__)
                 for job, r in zip(part, res):
                     if r and isinstance(r[0], list):
-                        for t in r:
+                        for k, t in enumerate(r):
                             traces.append(t)
-                            metas.append(job if not isinstance(job, (list, tuple)) else None)
+                            metas.append({"fn": fname, "job": job, "index": k})
                     else:
                         traces.append(r)
-                        metas.append(None)
+                        metas.append({"fn": fname, "job": job, "index": None})
                 verdicts = tlc.validate(traces, "%s-%s-%d" % (self.prop, tag, a), module=module, cfg=cfg)
                 self.judge(traces, verdicts, metas)
 
